@@ -137,6 +137,34 @@ Definition run_o (o : map_order) (inp : list Z) : list Z :=
           end
       | None => [9]
       end
+  | 2 :: r =>
+      (* containment: [v in c; v not in c; v is in(c); v in (c|list); c[v] is defined (maps only, else 9)] *)
+      match dec o fuel r with
+      | Some (c, r') =>
+          match dec o fuel r' with
+          | Some (v, _) =>
+              let lookup := match c with
+                            | VMap kvs => b2z (match map_get_o o v kvs with Some _ => true | None => false end)
+                            | _ => 9
+                            end in
+              if (match c with VInvalid _ => true | _ => false end) || (match v with VInvalid _ => true | _ => false end)
+              then [103; 103; 103; 103; match c with VMap _ => 103 | _ => 9 end] else
+              let enc_b (neg : bool) (dflt : Z) (x : outcome bool) : list Z :=
+                match x with
+                | Ok b => [b2z (if neg then negb b else b)]
+                | Err _ => [dflt]
+                | _ => [8]
+                end in
+              let r1 := contains_o o c v in
+              let r2 := bind (iter_items c) (fun items => contains_o o (VSeq items) v) in
+              match r1, r2 with
+              | OutOfGas, _ | _, OutOfGas => [8]
+              | _, _ => enc_b false 103 r1 ++ enc_b true 103 r1 ++ enc_b false 0 r1 ++ enc_b false 103 r2 ++ [lookup]
+              end
+          | None => [9]
+          end
+      | None => [9]
+      end
   | 1 :: fid :: rev :: cs :: count :: atag :: r =>
       let '(attr, r1) := if atag =? 0 then (None, r)
                          else match r with n :: r' => (Some (takeZ n r'), skipZ n r') | [] => (None, r) end in
